@@ -48,6 +48,10 @@ pub mod libc {
     #[allow(non_camel_case_types)] pub struct timespec { pub tv_sec: i64, pub tv_nsec: i64 }
     #[allow(non_camel_case_types)] pub type mode_t = u32;
     #[allow(non_camel_case_types)] pub type c_int = i32;
+    pub const SEEK_SET: i32 = 0;      // lseek(2) whence (unit ptreaddir)
+    #[allow(non_camel_case_types)] pub type ino64_t = u64;
+    #[allow(non_camel_case_types)] pub type c_ushort = u16;
+    #[allow(non_camel_case_types)] pub type c_uchar = u8;
 }
 
 // slices are at most isize::MAX bytes long (language guarantee; invoked explicitly where needed)
